@@ -331,6 +331,7 @@ func checkC09(p *Program, r *Report) {
 		setRule("C09.candidates")
 		checkNeighbourCandidates(p, r, descent, first.f, last.f)
 	}
+	checkCodecsAs(p, r, "C09")
 }
 
 // checkNeighbourCandidates: see C09.candidates.
